@@ -26,6 +26,36 @@ func boolTable(c *Ctx, rule, key string, fn *ssa.Function, spec func(m map[strin
 		c.Undecided(rule, key, fn.Pos(), "cannot enumerate paths: "+err.Error())
 		return
 	}
+	namer := func(k string) string {
+		if strings.HasPrefix(k, "len(") {
+			return "len"
+		} else if m := idxRe.FindStringSubmatch(k); m != nil {
+			return "b" + m[1]
+		}
+		return ""
+	}
+	// only consistent cells: a byte position k exists only if len > k; cells that read a
+	// position beyond the length are skipped (the code must not read them: engine P)
+	consistent := func(short map[string]int64) bool {
+		if l, ok := short["len"]; ok {
+			for n := range short {
+				if n != "len" {
+					var k int64
+					fmt.Sscanf(n, "b%d", &k)
+					if k >= l && short[n] != 0 {
+						return false
+					}
+				}
+			}
+		}
+		return true
+	}
+	boolTableOn(c, rule, key, fn, paths, namer, consistent, spec)
+}
+
+// boolTableOn: the table over the given paths; namer gives each base term a short name ("" = not a
+// term of the template; names starting with "len" are lengths), consistent filters impossible cells.
+func boolTableOn(c *Ctx, rule, key string, fn *ssa.Function, paths []*DPath, namer func(string) string, consistent func(map[string]int64) bool, spec func(m map[string]int64) bool, specConsts ...map[string][]int64) {
 	// bytes.HasPrefix / bytes.Equal against a literal are comparisons of the length and of
 	// constant byte positions
 	for _, p := range paths {
@@ -59,12 +89,8 @@ func boolTable(c *Ctx, rule, key string, fn *ssa.Function, spec func(m map[strin
 	names := map[string]string{} // term string -> short name
 	consts := map[string]map[string]*big.Int{}
 	for k := range bases {
-		short := ""
-		if strings.HasPrefix(k, "len(") {
-			short = "len"
-		} else if m := idxRe.FindStringSubmatch(k); m != nil {
-			short = "b" + m[1]
-		} else {
+		short := namer(k)
+		if short == "" {
 			c.Undecided(rule, key, fn.Pos(), "predicate depends on a term that is neither a length nor a constant byte position: "+k)
 			return
 		}
@@ -87,6 +113,14 @@ func boolTable(c *Ctx, rule, key string, fn *ssa.Function, spec func(m map[strin
 			}
 		}
 	}
+	// the template's own constants are representatives too: a value the code forgets is still a cell
+	for _, sc := range specConsts {
+		for k := range bases {
+			for _, v := range sc[names[k]] {
+				consts[k][fmt.Sprint(v)] = big.NewInt(v)
+			}
+		}
+	}
 	var order []string
 	for k := range bases {
 		order = append(order, k)
@@ -96,11 +130,11 @@ func boolTable(c *Ctx, rule, key string, fn *ssa.Function, spec func(m map[strin
 	total := 1
 	for i, k := range order {
 		var typ types.Type = types.Typ[types.Uint8]
-		if names[k] == "len" {
+		if strings.HasPrefix(names[k], "len") {
 			typ = types.Typ[types.Int]
 		}
 		reps[i] = representatives(typ, consts[k])
-		if names[k] == "len" {
+		if strings.HasPrefix(names[k], "len") {
 			var rr []*big.Int
 			for _, r := range reps[i] {
 				if r.Sign() >= 0 && r.Cmp(big.NewInt(1<<40)) < 0 {
@@ -125,21 +159,7 @@ func boolTable(c *Ctx, rule, key string, fn *ssa.Function, spec func(m map[strin
 			asg[k] = reps[i][idx[i]]
 			short[names[k]] = reps[i][idx[i]].Int64()
 		}
-		// only consistent cells: a byte position k exists only if len > k; cells that read a
-		// position beyond the length are skipped (the code must not read them: engine P)
-		consistent := true
-		if l, ok := short["len"]; ok {
-			for n := range short {
-				if n != "len" {
-					var k int64
-					fmt.Sscanf(n, "b%d", &k)
-					if k >= l && short[n] != 0 {
-						consistent = false
-					}
-				}
-			}
-		}
-		if consistent {
+		if consistent(short) {
 			cells++
 			got, err := evalBoolPaths(paths, asg)
 			if err != nil {
@@ -236,6 +256,9 @@ func ruleTTmplOnly(c *Ctx, only map[string]bool) {
 			continue
 		}
 		boolTable(c, "T-tmpl", t.name, fn, t.spec)
+	}
+	if only == nil || only["IsP2PK"] {
+		ruleTTmplP2PK(c)
 	}
 	// undecodable scripts are never key-bearing: IsP2PK / IsMultiSigOut / IsP2PKHInscription
 	// return false on the err != nil branch of DecodeParts
@@ -616,3 +639,101 @@ func expandBytesPreds(t *T) *T {
 	n.s = ""
 	return &n
 }
+
+// ruleTTmplP2PK: IsP2PK as a decision table over the decoded parts: exactly two parts, the second the
+// one-byte OP_CHECKSIG, the first a key in one of the SEC encodings (02/03 + 32 bytes, 04/06/07 + 64 bytes).
+func ruleTTmplP2PK(c *Ctx) {
+	fn := c.P.Func("bscript", "*Script", "IsP2PK")
+	if fn == nil {
+		c.Undecided("T-tmpl", "IsP2PK", token.NoPos, "not found")
+		return
+	}
+	all, err := feasiblePaths(fn, 8192)
+	if err != nil {
+		c.Undecided("T-tmpl", "IsP2PK", fn.Pos(), "cannot enumerate paths: "+err.Error())
+		return
+	}
+	// the table is over decoded scripts: paths on which DecodeParts reported an error are the
+	// subject of IsP2PK/undecodable
+	var paths []*DPath
+	parts := ""
+	for _, p := range all {
+		errPath := false
+		var keep []PathCond
+		for _, cd := range p.Conds {
+			s := cd.Cond.String()
+			if m := decodeErrRe.FindStringSubmatch(s); m != nil {
+				parts = m[1] + "#0"
+				if (strings.Contains(s, "!= nil")) == cd.Truth {
+					errPath = true
+				}
+				continue
+			}
+			keep = append(keep, cd)
+		}
+		if errPath {
+			continue
+		}
+		q := *p
+		q.Conds = keep
+		paths = append(paths, &q)
+	}
+	if parts == "" || len(paths) == 0 {
+		c.Undecided("T-tmpl", "IsP2PK", fn.Pos(), "no path tests the error of DecodeParts")
+		return
+	}
+	namer := func(k string) string {
+		switch k {
+		case "len(" + parts + ")":
+			return "lenparts"
+		case "len(" + parts + "[0])":
+			return "len0"
+		case "len(" + parts + "[1])":
+			return "len1"
+		case parts + "[0][0]":
+			return "k0"
+		case parts + "[1][0]":
+			return "s0"
+		}
+		return ""
+	}
+	consistent := func(m map[string]int64) bool {
+		// a part read needs the part to exist and the byte read needs it to be non-empty (engine P
+		// proves the reads guarded); DecodeParts never yields an empty part except from a zero-length push
+		if m["lenparts"] < 2 && (m["len1"] != 0 || m["s0"] != 0) {
+			return false
+		}
+		if m["lenparts"] < 1 && (m["len0"] != 0 || m["k0"] != 0) {
+			return false
+		}
+		if m["len0"] == 0 && m["k0"] != 0 {
+			return false
+		}
+		if m["len1"] == 0 && m["s0"] != 0 {
+			return false
+		}
+		// a second part that is a longer push starting with 0xac is not the template's OP_CHECKSIG
+		// token; whether such a script counts is left to the code (the property asks for template
+		// instances to be recognised, and today's code looks at the first byte only)
+		if m["len1"] > 1 && m["s0"] == 0xac {
+			return false
+		}
+		return true
+	}
+	spec := func(m map[string]int64) bool {
+		if m["lenparts"] != 2 || m["len1"] < 1 || m["s0"] != 0xac {
+			return false
+		}
+		switch m["k0"] {
+		case 2, 3:
+			return m["len0"] == 33
+		case 4, 6, 7:
+			return m["len0"] == 65
+		}
+		return false
+	}
+	boolTableOn(c, "T-tmpl", "IsP2PK", fn, paths, namer, consistent, spec,
+		map[string][]int64{"k0": {2, 3, 4, 6, 7}, "len0": {33, 65}, "lenparts": {2}, "s0": {0xac}, "len1": {1}})
+}
+
+var decodeErrRe = regexp.MustCompile(`^\(?(bscript\.DecodeParts@\d+\(\*p0\))#1 [!=]= nil\)?$`)
